@@ -99,6 +99,26 @@ PLANS["C11"]["parts"].append(("generic", "gen", 1000, 20000))
 PLANS["C11"]["parts"].append(("lifecycle", "gen", 1000, 20000))
 PLANS["C17"]["parts"].append(("lifecycle", "gen", 1000, 20000))
 
+PLANS["C13"] = {
+    "level": "fault_enumeration",
+    "parts": [("replyfault", "directed", None, None), ("replyfault", "gen", 6000, 120000)],
+    "budget_s": {"quick": 150, "thorough": 1500},
+    "rule": ("scenario = request kind (generic connected/UCMM/Unconnected Send, read, fragmented read, write, fragmented write, "
+             "read-modify-write, multi-service read/write, symbol-list page, template read, template attributes, register session, "
+             "list identity, identity via Unconnected Send) x which reply of the operation x device fault; directed: every general "
+             "status 0..255 (x extended-status shapes for selected codes; all in thorough) on first/last reply of every kind, "
+             "header-only encapsulation errors, per-service status vectors and lying counts in multi-service replies, truncation "
+             "at every byte 0..79 (0..139 thorough) with and without fixed-up length; random: status/ext, truncation, 1-8 bit "
+             "flips, garbage. distinct = distinct (kind, fault type, outcome, status or cut class)"),
+    "real": LOGIX_REAL, "stub": LOGIX_STUB + ["reply-fault injector in the simulated device"],
+    "assumptions": ["status 6 is success-and-continue for Read Tag Fragmented, Get Instance Attribute List and template reads; "
+                    "must-fail for plain Read/Write Tag, RMW, generic services outside the library's MULTI_PACKET_SERVICES; not "
+                    "judged for the remaining members of that list (DESIGN 6 C13)",
+                    "status names come from the library's SERVICE_STATUS/EXTEND_CODES tables (naming dictionary only)",
+                    "for corrupted frames that are no longer well-formed only robustness (library exception, termination, "
+                    "never-success-when-too-short) is demanded"],
+}
+
 
 def plan_for(prop, tier):
     p = PLANS.get(prop)
